@@ -27,6 +27,7 @@ Endings == {
   H("while_closing",        <<"ok">>, <<Ok, F(1, 1, <<97>>)>>, <<D(2), Eof>>, <<R("text#0", "close")>>),
   H("closed_by_client",     <<"ok">>, <<Ok, F(8, 1, <<3, 232>>)>>, <<D(1), D(1), Eof>>, <<R("ready#0", "close")>>),
   H("closed_by_server",     <<"ok">>, <<Ok, F(8, 1, <<3, 232>>)>>, <<D(2), Eof>>, <<>>),
+  H("truncated_close_reason", <<"ok">>, <<Ok, F(8, 1, <<3, 232, 226, 130>>)>>, <<D(2), Eof>>, <<>>),
   H("rejected",             <<"ok">>, <<Rej>>, <<D(1), Eof>>, <<>>),
   H("connect_failure",      <<"refused">>, <<>>, <<>>, <<>>),
   H("protocol_error",       <<"ok">>, <<Ok, F(3, 1, <<>>)>>, <<D(2), Eof>>, <<>>),
@@ -43,6 +44,7 @@ Continuations == {
   H("binary_then_server_close", <<"ok">>, <<Ok, F(2, 1, <<0, 255>>), F(8, 1, <<3, 232>>)>>, <<D(3), Eof>>, <<>>),
   H("compressed_message",   <<"ok">>, <<OkZ, Z(F(1, 1, <<104, 105, 104, 105, 104, 105, 104, 105>>)), Z(F(1, 1, <<104, 105, 104, 105>>))>>, <<D(3), Eof>>, <<R("text#0", "send")>>),
   H("send_then_close",      <<"ok">>, <<Ok, F(8, 1, <<3, 232>>)>>, <<D(1), D(1), Eof>>, <<R("ready#0", "send"), R("poll#0", "close")>>),
+  H("server_close_with_reason", <<"ok">>, <<Ok, F(1, 1, <<97>>), F(8, 1, <<3, 232, 98, 121, 101>>)>>, <<D(3), Eof>>, <<>>),
   H("rejected",             <<"ok">>, <<Rej>>, <<D(1), Eof>>, <<>>),
   H("silent_drop",          <<"ok">>, <<Ok>>, <<D(1), Eof>>, <<R("ready#0", "send")>>) }
 
